@@ -351,6 +351,11 @@ func c33div1(a *Term, c int64) *Term {
 	if qr := c33divRaw(rest.term(), c); qr.Op != "div" {
 		return IntBin("+", out.term(), qr)
 	}
+	// otherwise pull out only the constant multiple of c (keeps huge epoch constants out of the div)
+	if kq.Sign() != 0 {
+		l.k = kr
+		return IntBin("+", c33divRaw(l.term(), c), ConstInt(kq))
+	}
 	return c33divRaw(c33norm(a), c)
 }
 
@@ -931,6 +936,18 @@ func init() {
 				return prev(fr, a)
 			}
 			var digs []value
+			if sv, isS := arg.v.(*sym); isS && IntMode && zero && width > 0 && width <= 18 {
+				// fixed width: value provably in [0,10^width) -> exactly width digits, no forking
+				p10 := new(big.Int).Exp(bi(10), bi(int64(width)), nil)
+				if i := iv(sv.T); i.lo != nil && i.lo.Sign() >= 0 && i.hi.Cmp(p10) < 0 {
+					for k := width - 1; k >= 0; k-- {
+						pw := new(big.Int).Exp(bi(10), bi(int64(k)), nil).Int64()
+						dg := c33mod(c33div(sv.T, pw), 10)
+						out = append(out, mkIntVal(types.Uint8, IntBin("+", dg, c33c('0'))))
+					}
+					continue
+				}
+			}
 			if isSym(arg.v) {
 				if bt.Info()&types.IsUnsigned != 0 {
 					digs = symFormatUint(conv(types.Typ[types.Uint64], arg.t, arg.v), 10)
@@ -1003,7 +1020,11 @@ func c33Pre(op token.Token, k types.BasicKind, a, b *Term) value {
 		}
 	case token.REM:
 		if c, ok := small(b); ok && nonneg(a) && !a.IsConst() {
-			return ti(c33mod(a, c))
+			r := c33mod(a, c)
+			if !r.IsConst() && r.Op != "ite" {
+				c33Opaque[r] = true // a Go-level remainder: one field with interval [0,c-1]
+			}
+			return ti(r)
 		}
 	case token.SHR:
 		if b.IsConst() && b.Val.Sign() >= 0 && b.Val.Cmp(bi(62)) < 0 && !a.IsConst() && iv(a).lo != nil {
@@ -1047,4 +1068,18 @@ func init() {
 		}
 		return c33Pre(op, k, a, b)
 	}
+}
+
+// strconv.Atoi on a string with symbolic bytes: interpret the Go source (the built-in external
+// only takes concrete strings).
+func init() {
+	prev := externals["strconv.Atoi"]
+	var self externalFn
+	self = func(fr *frame, a []value) value {
+		if _, ok := a[0].(string); ok || fr.fn == nil || fr.fn.Blocks == nil {
+			return prev(fr, a)
+		}
+		return c33Body(fr, "strconv.Atoi", self, a)
+	}
+	externals["strconv.Atoi"] = self
 }
